@@ -134,25 +134,35 @@ class _Slots:
         import fcntl
         import random
         os.makedirs(SLOT_DIR, exist_ok=True)
-        while True:
-            order = list(range(NSLOTS))
-            random.shuffle(order)
-            for i in order:
+        # A heavy run (weight > 1) first takes the gate, so that at most one heavy run at a
+        # time is collecting slots; it KEEPS the slots it has while waiting for more (an
+        # all-or-nothing attempt starves next to a steady stream of 1-slot runs).  No
+        # deadlock: whoever holds the gate waits only for slots held by running JVMs.
+        gate = None
+        if self.weight > 1:
+            gate = open(os.path.join(SLOT_DIR, "gate"), "w")
+            fcntl.flock(gate, fcntl.LOCK_EX)
+        try:
+            mine = set()
+            while True:
+                order = [i for i in range(NSLOTS) if i not in mine]
+                random.shuffle(order)
+                for i in order:
+                    if len(self.held) >= self.weight:
+                        break
+                    f = open(os.path.join(SLOT_DIR, "slot%d" % i), "w")
+                    try:
+                        fcntl.flock(f, fcntl.LOCK_EX | fcntl.LOCK_NB)
+                        self.held.append(f)
+                        mine.add(i)
+                    except OSError:
+                        f.close()
                 if len(self.held) >= self.weight:
-                    break
-                f = open(os.path.join(SLOT_DIR, "slot%d" % i), "w")
-                try:
-                    fcntl.flock(f, fcntl.LOCK_EX | fcntl.LOCK_NB)
-                    self.held.append(f)
-                except OSError:
-                    f.close()
-            if len(self.held) >= self.weight:
-                return self
-            # could not get all: release and retry (avoids deadlock between heavy runs)
-            for f in self.held:
-                f.close()
-            self.held = []
-            time.sleep(0.5 + random.random())
+                    return self
+                time.sleep(0.3 + random.random() * 0.5)
+        finally:
+            if gate is not None:
+                gate.close()
 
     def __exit__(self, *a):
         for f in self.held:
